@@ -17,7 +17,7 @@ PATHS = ['/', '/a', '/a/', '/a//', '/a/1', '/a/b', '/a/b/', '/a/x/c', '/b', '/b/
          '/c/', '/c/z', '/zz', '/zz/', '/a/1/', '//a', '/A', '/a/1x',
          # segments the lexical regexes of int/float admit but the conversion rejects (sign, blank, digits; an empty
          # segment inside a typed multi binding): no match, never an exception
-         '/a/+ 1', '/a/- .5', '/n/1//2', '/n/3/4', '/a/' + '9' * 4400]
+         '/a/+ 1', '/a/- .5', '/n/1//2', '/n/3/4']
 REQ_METHODS = ['GET', 'GET', 'HEAD', 'POST', 'PUT', 'get', 'FOO', 'DELETE', 'post']
 METHOD_SETS = [None, None, ['GET'], ['POST'], ['get', 'put'], ['POST', 'DELETE'], ['HEAD'], [], ['GET', 'POST']]
 BEHAVIOURS = ['ok', 'ok', 'ok', 'ctx', 'nonresp', 'none', 'raise404nb', 'ret403nb', 'raise409', 'ret503',
@@ -475,7 +475,7 @@ def run(prop, rep, b, tier, seed, only_cases=None):
     rep.assumptions = ['werkzeug Request.path/method, redirect(), BaseResponse.__call__ behave as documented',
                        'ExceptionInfo.from_current / repr of the exception do not raise (exercised with unprintable, '
                        'huge and non-ASCII exception arguments)',
-                       'whether a pattern matches a path is an input of the dispatch model (decided by C05)']
+                       'whether a pattern matches a path is an input of the dispatch model (decided by C05); additionally every table is routed by the composed model (pattern parser + matcher + dispatch) and both must agree']
     obs = core.run_impl_workers('dispatchprops_worker', cases)[0]
     lines, idx = [], []
     for i, (c, o) in enumerate(zip(cases, obs)):
@@ -492,6 +492,23 @@ def run(prop, rep, b, tier, seed, only_cases=None):
     if b.driver_ok:
         try:
             model_out = core.run_model(lines)
+            # the same tables routed END TO END by the model: the match bits come from Model/Pattern + Model/Match
+            # (parse_pattern, match_path) instead of BoundRoute.match_path
+            full_lines = [l.replace('dispatchlab ', 'dispatchfull ', 1) for l in lines if l.startswith('dispatchlab ')]
+            full_idx = [i for l, i in zip(lines, idx) if l.startswith('dispatchlab ')]
+            full_out = core.run_model(full_lines)
+            nfull = 0
+            for i, fl in zip(full_idx, full_out):
+                if fl != model_out[idx.index(i)]:
+                    nfull += 1
+                    if nfull <= 3:
+                        a, b2 = sexp.loads(fl), sexp.loads(model_out[idx.index(i)])
+                        k = next((k for k in range(min(len(a), len(b2))) if a[k] != b2[k]), 0)
+                        rep.broken('correspondence dispatchfull: request %s: routed from the declared patterns by the model alone: %s; '
+                                   'with the match bits of BoundRoute.match_path: %s' % (cases[i]['requests'][k][:2], a[k], b2[k]),
+                                   {'case': cases[i]})
+                else:
+                    rep.count('routed_end_to_end_by_model')
         except Exception as e:  # noqa
             rep.broken('model dispatchlab is not executable: %s' % e)
     else:
